@@ -275,6 +275,47 @@ def memory_case(ctx, token, rk, allow, label, expect_ok):
         ctx.violation(f"beyond-limit-wrong-error:{out.get('etype')}", f"{label} reported as {out.get('etype')}", {"label": label})
 
 
+WORDS = ["confirmation", "code", "the", "b ", "ch", "cl", "co", "user", "42", "{", "\"", ":", " ", "\n", "id", "é", "a", "Z", "0", "-", "_", ".", "token", "=", "&"]
+
+
+def many_small(ctx, rng, n):
+    j = J.load()
+    key = gen.new_oct(128)
+    jk = j.key(key)
+    A = ["dir", "A128GCM", "DEF"]
+    seen_prefix = set()
+    for i in range(n):
+        ctx.ev()
+        r = rng.random()
+        if r < 0.4:
+            pt = "".join(rng.choice(WORDS) for _ in range(rng.randrange(1, 9))).encode()
+        elif r < 0.8:
+            pt = rng.randbytes(rng.randrange(1, 48))
+        else:
+            pt = bytes(rng.choice(b"ab \x00{}") for _ in range(rng.randrange(1, 200)))
+        if i % 2:
+            o = call(j.jwe.encrypt_compact, {"alg": "dir", "enc": "A128GCM", "zip": "DEF"}, pt, jk, algorithms=A)
+            back = call(j.jwe.decrypt_compact, o.value, jk, algorithms=A) if o.ok else o
+            variant = "joserfc"
+        else:
+            c = zlib.compressobj(rng.choice([1, 6, 9]), zlib.DEFLATED, -15)
+            st = c.compress(pt) + c.flush()
+            seen_prefix.add(st[:2])
+            b = g.make("compact", "A128GCM", [("dir", key, None)], b"", zip_=True, compressed=st)
+            back = call(j.jwe.decrypt_compact, b.token, jk, algorithms=A)
+            variant = "ref"
+        ctx.count("decrypts")
+        ctx.count("within_limit")
+        ctx.count("small_roundtrips")
+        ctx.nontrivial(("small", pt))
+        if not back.ok:
+            ctx.violation(f"within-limit-rejected:{back.etype}:small", f"{len(pt)}-octet plaintext {pt[:40]!r} ({variant} raw DEFLATE stream) does not round-trip: {back.exc!r}",
+                          {"plaintext": pt, "variant": variant})
+        elif back.value.plaintext != pt:
+            ctx.violation("plaintext-differs:small", f"{len(pt)}-octet plaintext {pt[:40]!r} comes back as {back.value.plaintext[:40]!r}", {"plaintext": pt, "variant": variant})
+    ctx.max("small_distinct_stream_prefixes", len(seen_prefix))
+
+
 def run_shard(ctx):
     J.load()
     J.register_drafts()
@@ -350,6 +391,9 @@ def run_shard(ctx):
             r = mon.case(256001, "constant", "joserfc", "A128GCM", "compact", rng)
             if r:
                 memory_case(ctx, r[0], r[1], ["dir", "A128GCM", "DEF"], "beyond:constant:256001", False)
+        # many small plaintexts: the first octets of a raw stream vary with the content, nothing in them may be taken for a header
+        if ctx.shard in (15, 14, 2):
+            many_small(ctx, rng, 700 if ctx.tier == "quick" else 30000)
         # the compressor emits raw DEFLATE
         if ctx.shard == 8:
             import joserfc.rfc7518.jwe_zips as zm
